@@ -86,6 +86,7 @@ deriving DecidableEq, Repr
 structure Env (S : Type) where
   collation : Nat → Option Nat          -- `Collation(n).charset` as a character-set id; `none`: ValueError
   decode : Nat → Bytes → Option S       -- `CharacterSet(cs).decode(b)` / `b.decode(cs.codec)`; `none`: the codec raises
+  encode : Nat → S → Option Bytes       -- `CharacterSet(cs).encode(s)`; `none`: the codec raises
   empty : S                             -- `""`
   validType : Nat → Bool                -- `ColumnType(n)` exists
 
